@@ -71,14 +71,15 @@ def run(ctx, chk, tier):
     chk.trusted |= {"scipy.stats.norm identities", "numpy.repeat(values, counts)", "numpy.floor", "x % 2 and x // 2 decode codes 0..3 as (k & 1, k >> 1)"}
     ev = ctx.ev
     # ---------------- R20.1 inverse pairs
-    for rate, thr in (("fnr", "threshold_at_fnr"), ("fpr", "threshold_at_fpr")):
+    for rate, thr, sc in [(r_, t_, sc_) for sc_ in ("pos", "neg") for r_, t_ in (("fnr", "threshold_at_fnr"), ("fpr", "threshold_at_fpr"))]:
         for outer, inner in ((rate, thr), (thr, rate)):
             def thunk():
-                o = normal_obj(ctx)
+                o = normal_obj(ctx, {"score_class": Const(sc)})
                 mid = ev.call(ev.getattr(o, inner), [X], {})
                 return ev.call(ev.getattr(o, outer), [mid], {})
             rets, rs, _ = all_values(ctx, chk, thunk)
-            inst = "%s(%s(x))" % (outer, inner)
+            # the inverse relation holds for every configuration of the dataset, the other score direction included
+            inst = "%s(%s(x))" % (outer, inner) + ("" if sc == "pos" else " [score_class=neg]")
             if not rets or rs:
                 chk.unknown("R20.1", "%s: %d return / %d raise paths" % (inst, len(rets), len(rs)))
             elif all(same(o.value, X) for o in rets):
